@@ -141,20 +141,28 @@ fn gen_name(rng: &mut Rng) -> Option<String> {
 }
 
 /// a genuine record: built by `new`, timestamp fixed from the PRNG, signed by its owner
-fn gen_genuine(rng: &mut Rng, ids: &[Ident], i: usize) -> R {
+fn gen_genuine(rng: &mut Rng, ids: &[Ident], i: usize, sum: &mut Summary) -> R {
     let id = &ids[i];
     let neps = match rng.below(24) { 0 => 16, 1..=4 => 2, 5 | 6 => 3, _ => 1 };
     let eps: Vec<PeerEndpoint> = (0..neps).map(|_| gen_endpoint(rng)).collect();
     let seq = match rng.below(6) { 0 => 0, 1 => 1, 2 => u64::MAX, 3 => 255, 4 => 256, _ => rng.below(1000) };
     let ttl = match rng.below(6) { 0 => 1, 1 => 86400, 2 => 300, 3 => 255, 4 => 256, _ => rng.range(1, 86400) as u32 };
-    let mut rec = PeerDHTRecord::new(UserId::from_public_key(&id.pk), id.pk.clone(), seq, gen_name(rng), eps, ttl)
-        .expect("generator stays inside the documented bounds");
+    let name = gen_name(rng);
+    let mut rec = match PeerDHTRecord::new(UserId::from_public_key(&id.pk), id.pk.clone(), seq, name.clone(), eps.clone(), ttl) {
+        Ok(r) => r,
+        Err(e) => {
+            // the generator stays inside the documented bounds: a refusal is a violation of C09's bounds clause
+            sum.violation(0, "constructor refuses a record inside the documented bounds (name 1..255 bytes or none, 1..16 endpoints, ttl 1..86400)", &[],
+                json!({"name_bytes": name.as_ref().map(|s| s.len()), "endpoints": eps.len(), "ttl": ttl, "error": e.to_string()}));
+            PeerDHTRecord::new(UserId::from_public_key(&id.pk), id.pk.clone(), seq, None, vec![eps[0].clone()], 300).expect("plain record")
+        }
+    };
     rec.timestamp = gen_u64_varint_edge(rng);
     rec.sign(&id.sk).expect("sign");
     R { rec, pk_expr: format!("k{}", i), how: format!("genuine(id{})", i), owner_signed: true }
 }
 
-const N_MUT: u64 = 40;
+const N_MUT: u64 = 41;
 /// field-level and byte-level alterations of a record; the signature is kept unless the mutation is about it
 fn mutate(rng: &mut Rng, g: &R, kind: u64, ids: &[Ident], other: usize) -> R {
     let mut r = g.clone();
@@ -255,6 +263,16 @@ fn mutate(rng: &mut Rng, g: &R, kind: u64, ids: &[Ident], other: usize) -> R {
             r.owner_signed = true;
             format!("foreign id with own key: key+signature of id{}, user id of the victim", other)
         }
+        40 => {
+            // the key owner signs a record whose user id is off by one bit: only the id check can refuse it
+            let p = *rng.pick(&[0usize, 15, 16, 31, 7, 24]);
+            r.rec.user_id.hash[p] ^= 1 << rng.below(8);
+            match ids.iter().find(|x| x.pk.as_bytes() == r.rec.public_key.as_bytes()) {
+                Some(id) => { r.rec.sign(&id.sk).expect("sign"); r.owner_signed = true; }
+                None => {}
+            }
+            format!("uid byte {} flipped, then signed by the key owner", p)
+        }
         _ => {
             // same (id, seq, ts), every other covered field replaced, genuine signature kept
             r.rec.name = Some("forged".into());
@@ -316,7 +334,7 @@ fn gen_history(rng: &mut Rng, ids: &[Ident], kind: Kind, case_no: u64, thorough:
     let ngen = match kind { Kind::V6Scope => 1, Kind::SharedKey | Kind::ForgedFirst => 1, _ => rng.range(1, 3) as usize };
     for _ in 0..ngen {
         let i = rng.below(ids.len() as u64) as usize;
-        let mut g = gen_genuine(rng, ids, i);
+        let mut g = gen_genuine(rng, ids, i, sum);
         if kind == Kind::V6Scope {
             // make sure there is an IPv6 endpoint, signed with scope 0
             g.rec.endpoints[0].external_address.socket_addr = SocketAddr::V6(SocketAddrV6::new(Ipv6Addr::new(0xfe80, 0, 0, 0, 0, 0, 0, 1 + rng.below(9) as u16), gen_port(rng), 0, 0));
@@ -339,7 +357,7 @@ fn gen_history(rng: &mut Rng, ids: &[Ident], kind: Kind, case_no: u64, thorough:
         }
         Kind::SharedKey | Kind::ForgedFirst => {
             // forgeries that share (user id, sequence number, timestamp) with the genuine record
-            let kinds = [8u64, 9, 12, 16, 21, 25, 39, 36, 31, 37];
+            let kinds = [8u64, 9, 12, 16, 21, 25, 39, 36, 31, 37, 33];
             let n = rng.range(1, 3);
             for _ in 0..n {
                 let k = *rng.pick(&kinds);
@@ -445,7 +463,7 @@ fn gen_history(rng: &mut Rng, ids: &[Ident], kind: Kind, case_no: u64, thorough:
 }
 
 // ------------------------------------------------------------------ construction bounds
-fn construct_cases(ids: &[Ident], rng: &mut Rng) -> Vec<(String, Value)> {
+fn construct_cases(ids: &[Ident], rng: &mut Rng, viol: &mut Vec<Value>) -> Vec<(String, Value)> {
     let names: Vec<Option<String>> = vec![
         None, Some(String::new()), Some("a".into()), Some("n".repeat(255)), Some("n".repeat(256)),
         Some("é".repeat(127)) /* 254 bytes */, Some(format!("{}a", "é".repeat(127))) /* 255 */, Some("é".repeat(128)) /* 256 bytes, 128 chars */,
@@ -459,6 +477,12 @@ fn construct_cases(ids: &[Ident], rng: &mut Rng) -> Vec<(String, Value)> {
         let id = &ids[0];
         let ok = PeerDHTRecord::new(UserId::from_public_key(&id.pk), id.pk.clone(), 1, n.clone(), vec![ep.clone(); k], t).is_ok();
         let nl = n.as_ref().map(|s| s.len());
+        // the bounds as the property text states them (reported directly so that a failing input is
+        // available even when a changed constant stops the Coq model from compiling)
+        let documented = nl.map_or(true, |l| (1..=255).contains(&l)) && (1..=16).contains(&k) && (1..=86400).contains(&t);
+        if ok != documented {
+            viol.push(json!({"name_bytes": nl, "name_chars": n.as_ref().map(|s| s.chars().count()), "endpoints": k, "ttl": t, "accepted": ok, "documented": documented}));
+        }
         out.push((format!("Construct {} {} {} {}", coq_opt(nl.map(|l| l.to_string())), k, t, coq_bool(ok)),
                   json!({"kind": "construct", "name_bytes": nl, "name_chars": n.as_ref().map(|s| s.chars().count()), "endpoints": k, "ttl": t, "accepted": ok})));
     } } }
@@ -470,12 +494,16 @@ fn main() {
     install_trace_sink();
     let mut rng = Rng::new(args.seed);
     let mut sum = Summary::default();
-    sum.rule = "histories of verify_signature / verify_cached on one SignatureCache (capacity 0..8) over pools of genuine records (names None/1/255 bytes/multi-byte, 1..16 endpoints, varint and integer boundaries), 40 kinds of field-level and byte-level alterations, forgeries sharing (id, seq, ts), foreign id with own key, own id with foreign key, re-signed by a foreign key, zero signature; plus the constructor on name length {none,0,1,254,255,256,1000 bytes incl. multi-byte} x endpoints {0,1,2,15,16,17,40} x ttl {0,1,2,300,86399,86400,86401,u32::MAX}. Non-trivial history = contains an accepted and a rejected presentation and at least one repeated record; distinct = different (kind, capacity, sequence of (how the record was made, verdicts))".into();
+    sum.rule = "histories of verify_signature / verify_cached on one SignatureCache (capacity 0..8) over pools of genuine records (names None/1/255 bytes/multi-byte, 1..16 endpoints, varint and integer boundaries), 41 kinds of field-level and byte-level alterations, forgeries sharing (id, seq, ts), foreign id with own key, own id with foreign key, re-signed by a foreign key, zero signature; plus the constructor on name length {none,0,1,254,255,256,1000 bytes incl. multi-byte} x endpoints {0,1,2,15,16,17,40} x ttl {0,1,2,300,86399,86400,86401,u32::MAX}. Non-trivial history = contains an accepted and a rejected presentation and at least one repeated record; distinct = different (kind, capacity, sequence of (how the record was made, verdicts))".into();
     let ids: Vec<Ident> = (0..4).map(|i| make_ident(&mut rng, i)).collect();
     let mut wb = CaseWriter::new(&args.out, "cases_c09_bounds", HEADER, "c09case", "check_case", "prop_case", 400);
     let mut id = 0u64;
-    for (t, j) in construct_cases(&ids, &mut rng) {
+    let mut viol = vec![];
+    for (t, j) in construct_cases(&ids, &mut rng, &mut viol) {
         wb.push(id, t); sum.case(id, j); sum.evaluations += 1; sum.count("kind:construct"); id += 1;
+    }
+    for v in viol.into_iter().take(5) {
+        sum.violation(0, "PeerDHTRecord::new accepts/refuses differently from the documented bounds (name 1..255 bytes or none, 1..16 endpoints, ttl 1..86400)", &[], v);
     }
     wb.flush();
     let mut w = CaseWriter::new(&args.out, "cases_c09_hist", HEADER, "c09case", "check_case", "prop_case", if args.thorough() { 30 } else { 9 });
